@@ -819,6 +819,8 @@ class PEval:
     def call(self, e, env, depth):
         args = [self.ev(a, env, depth) for a in e["args"]]
         path = thir.callee_of(e) or e.get("fn") or ""
+        if str(e.get("fn", "")).startswith("core::ops::function::Fn") and "{closure#" in path:
+            path = e["fn"]       # calling a closure held in a variable: apply the VALUE, not the resolved body
         fname = e.get("fname") or path.split("::")[-1]
         if "fn" not in e and "fun" in e:
             f = self.ev(e["fun"], env, depth)
@@ -1051,6 +1053,18 @@ class PEval:
                 k += 1
             return "".join(out)
         if path.startswith("core::iter::sources::"):
+            if fname == "from_fn" and len(args) == 1 and isinstance(a0, (Closure, FnItem, Native)):
+                # materialised eagerly: the closure is called until it answers None (its captured state is its own)
+                out = []
+                while True:
+                    r = self.apply(a0, [], depth + 1)
+                    if not (isinstance(r, Enum) and r.adt == OPTION):
+                        return self.unknown("from_fn closure result")
+                    if r.variant == "None":
+                        return Iter(out)
+                    out.append(r.fields.get("0", UNKNOWN))
+                    if len(out) > 20000:
+                        raise OutOfFuel()
             if fname == "once" and len(args) == 1:
                 return Iter([a0])
             if fname == "empty" and not args:
@@ -1162,6 +1176,25 @@ class PEval:
         if isinstance(a0, list) and fname == "clear":
             del a0[:]
             return UNIT
+        if isinstance(a0, Struct) and a0.adt == "core::ops::range::RangeFrom" and isinstance(a0.fields.get("start"), int) and fname in ("find", "position", "find_map") and len(args) == 2:
+            # an unbounded range: search upwards (bounded by the evaluator's fuel)
+            i_ = a0.fields["start"]
+            while True:
+                r = self.apply(args[1], [i_], depth + 1)
+                if fname == "find_map":
+                    if not (isinstance(r, Enum) and r.adt == OPTION):
+                        return self.unknown("find_map closure result")
+                    if r.variant == "Some":
+                        return r
+                else:
+                    t_ = self.truth(r)
+                    if t_ is UNKNOWN:
+                        return UNKNOWN
+                    if t_:
+                        return some(i_ if fname == "find" else i_ - a0.fields["start"])
+                i_ += 1
+                if i_ - a0.fields["start"] > 5000:
+                    raise OutOfFuel()
         if isinstance(a0, Struct) and a0.adt.startswith("core::ops::range::Range") and isinstance(a0.fields.get("start"), int) and isinstance(a0.fields.get("end"), int):
             rng = list(range(a0.fields["start"], a0.fields["end"]))
             if fname in ITER_CALLS or fname in ("rev", "map", "for_each", "filter", "any", "all", "fold", "collect", "count", "len", "next", "is_empty", "contains"):
@@ -1178,6 +1211,16 @@ class PEval:
             if isinstance(a0, Enum) and a0.adt == OPTION:
                 return Iter([a0.fields.get("0", UNKNOWN)] if a0.variant == "Some" else [])
             return a0
+        if fname == "to_string" and len(args) == 1 and isinstance(a0, int) and not isinstance(a0, bool):
+            # Display of an integer / a char: the static type of the receiver tells which
+            t0 = ""
+            if node is not None and node.get("args") and "t" in node["args"][0]:
+                t0 = self.lib.ty_str(self.lib.strip_refs(node["args"][0]["t"]))
+            if t0 == "char":
+                return chr(a0)
+            if re.fullmatch(r"[iu](8|16|32|64|128|size)", t0 or ""):
+                return str(a0)
+            return self.unknown("to_string of a scalar of unknown type")
         if fname in IDENTITY_CALLS and len(args) == 1:
             if fname in ("clone", "to_owned") and isinstance(a0, (Iter, PyMap, PySet)):
                 import copy
@@ -1223,6 +1266,17 @@ class PEval:
             return self.binop(fname.capitalize(), args[0], args[1])
         if fname == "cmp" and len(args) == 2 and (all(isinstance(x, int) for x in args) or all(isinstance(x, str) for x in args)):
             return ordering(args[0], args[1])
+        if fname in ("index", "index_mut", "get") and len(args) == 2 and isinstance(a0, list) and isinstance(args[1], Struct) and args[1].adt.startswith("core::ops::range::"):
+            # slicing: `v[a..b]`, `v[..b]`, `v[a..]`, `v[..]`, `v[a..=b]`
+            rf = args[1].fields
+            lo = rf.get("start", 0)
+            hi = rf.get("end", len(a0))
+            if args[1].adt.endswith("RangeInclusive") or args[1].adt.endswith("RangeToInclusive"):
+                hi = hi + 1 if isinstance(hi, int) else hi
+            if isinstance(lo, int) and isinstance(hi, int):
+                if 0 <= lo <= hi <= len(a0):
+                    return a0[lo:hi] if fname != "get" else some(a0[lo:hi])
+                return NONE if fname == "get" else self.unknown("slice out of range")
         if fname == "index_mut" and len(args) == 2 and isinstance(a0, list) and isinstance(args[1], int) and "ops::index" in path:
             if not 0 <= args[1] < len(a0):
                 return self.unknown("index out of range")
@@ -1406,6 +1460,9 @@ class PEval:
                 # bstr's ByteSlice::replace on byte strings
                 data, old_, new_ = bytes(args[0]), bytes(args[1]), bytes(args[2])
                 return list(data.replace(old_, new_))
+            if fname in ("find_byte", "rfind_byte") and len(args) == 2 and isinstance(args[1], int) and all(isinstance(y, int) for y in a0):
+                idx = [i_ for i_, y in enumerate(a0) if y == args[1]]
+                return NONE if not idx else some(idx[0] if fname == "find_byte" else idx[-1])
             if fname in ("find", "contains_str") and len(args) == 2 and isinstance(args[1], list) and all(isinstance(y, int) for y in a0 + args[1]) and "bstr" in path:
                 i = bytes(a0).find(bytes(args[1]))
                 return (some(i) if i >= 0 else NONE) if fname == "find" else i >= 0
